@@ -657,3 +657,21 @@ MUTANTS += [
      "edits": [("src/encoder.rs", "/// Writable object which encodes input to base64", "const BASE64_MASK: u8 = 0x1f;\n\n/// Writable object which encodes input to base64"),
                ("src/encoder.rs", FINISH_BODY, FINISH_SEXTET)]},
 ]
+
+_DEC4_LETS = ("        let [i0, i1, i2, i3] = chunk;\n        let o0 = BASE64_DECODE[i0 as usize];\n        let o1 = BASE64_DECODE[i1 as usize];\n"
+              "        let o2 = BASE64_DECODE[i2 as usize];\n        let o3 = BASE64_DECODE[i3 as usize];\n")
+_DSIZE_IF = ("        let [_, _, i2, i3] = chunk;\n        if i2 == b'=' {\n            1\n        } else if i3 == b'=' {\n            2\n        } else {\n            3\n        }\n")
+MUTANTS += [
+    # `[T; 4]::map` with a table-lookup closure instead of four lets; size-from-padding as a match on array patterns; difference guard with a named const
+    {"id": "C14-benign-decode-array-map", "prop": "C14", "benign": True,
+     "edits": [("src/decoder.rs", _DEC4_LETS, "        let [o0, o1, o2, o3] = chunk.map(|symbol| BASE64_DECODE[usize::from(symbol)]);\n")]},
+    {"id": "C14-decode-array-map-swapped", "prop": "C14", "expect": "DEC-BITS",
+     "edits": [("src/decoder.rs", _DEC4_LETS, "        let [o1, o0, o2, o3] = chunk.map(|symbol| BASE64_DECODE[usize::from(symbol)]);\n")]},
+    {"id": "C14-benign-decode-size-array-match", "prop": "C14", "benign": True,
+     "edits": [("src/decoder.rs", _DSIZE_IF, "        match chunk {\n            [_, _, b'=', _] => 1,\n            [_, _, _, b'='] => 2,\n            _ => 3,\n        }\n")]},
+    {"id": "C14-decode-size-array-match-swapped", "prop": "C14", "expect": "C14/",
+     "edits": [("src/decoder.rs", _DSIZE_IF, "        match chunk {\n            [_, _, b'=', _] => 2,\n            [_, _, _, b'='] => 1,\n            _ => 3,\n        }\n")]},
+    {"id": "C14-benign-fill-guard-difference-const", "prop": "C14", "benign": True,
+     "edits": [("src/decoder.rs", "impl<R: Read> Base64Decoder<R> {\n    pub fn new(read: R)", "impl<R: Read> Base64Decoder<R> {\n    const QUANTUM_DECODED: usize = 3;\n\n    pub fn new(read: R)"),
+               ("src/decoder.rs", "while self.buffer_size + 3 <= self.buffer.len() {", "while self.buffer.len() - self.buffer_size >= Self::QUANTUM_DECODED {")]},
+]
